@@ -24,9 +24,16 @@ type step struct {
 	Remote bool
 	Repeat bool // same value object as the previous step
 	Value  interface{}
+	// Rebound: instead of an update the application declares new bounds through the typed setters
+	// (as accessory.NewThermostat does after it has set a value)
+	Rebound       bool
+	Min, Max, Stp float64
 }
 
 func (s step) String() string {
+	if s.Rebound {
+		return fmt.Sprintf("declare-bounds[min=%v max=%v step=%v]", s.Min, s.Max, s.Stp)
+	}
 	who := "local"
 	if s.Remote {
 		who = "remote"
@@ -35,6 +42,15 @@ func (s step) String() string {
 		who += "(same value again)"
 	}
 	return fmt.Sprintf("%s:%#v", who, s.Value)
+}
+
+func writable(ch *characteristic.Characteristic) bool {
+	for _, p := range ch.Perms {
+		if p == characteristic.PermWrite {
+			return true
+		}
+	}
+	return false
 }
 
 func readable(ch *characteristic.Characteristic) bool {
@@ -51,7 +67,8 @@ func readable(ch *characteristic.Characteristic) bool {
 // hadValue: the characteristic held a value before (a hand-written constructor
 // may leave a readable characteristic without default; that initial state is
 // C15's business, losing a value is ours).
-func invariant(ch *characteristic.Characteristic, typed interface{}, hadValue bool) error {
+func invariant(ch *characteristic.Characteristic, typed interface{}, hadValue bool, rangeApplies ...bool) error {
+	checkRange := len(rangeApplies) == 0 || rangeApplies[0]
 	if ch.Value == nil {
 		if readable(ch) && hadValue {
 			return fmt.Errorf("readable characteristic lost its value: holds nil")
@@ -66,7 +83,7 @@ func invariant(ch *characteristic.Characteristic, typed interface{}, hadValue bo
 		if !hx.ValueOK(ch.Format, ch.Value) {
 			return fmt.Errorf("format %s but stored value is %#v (%T)", ch.Format, ch.Value, ch.Value)
 		}
-		if v, ok := hx.Num(ch.Value); ok {
+		if v, ok := hx.Num(ch.Value); ok && checkRange {
 			if mn, ok := hx.Num(ch.MinValue); ok && v < mn {
 				return fmt.Errorf("value %v below declared minimum %v", ch.Value, ch.MinValue)
 			}
@@ -147,11 +164,28 @@ func TestC12Prop(t *testing.T) {
 		var steps []step
 		foreign := map[string]bool{}
 		repeatedComposite := false
+		numeric := hx.FormatKind(ch.Format) == "number"
 		for i := 0; i < n; i++ {
+			if numeric && rapid.IntRange(0, 5).Draw(t, "rebound") == 0 {
+				lo := float64(rapid.IntRange(-50, 200).Draw(t, "newmin"))
+				span := rapid.SampledFrom([]float64{0, 0.3, 1, 7, 20.5, 100, 104, 1000}).Draw(t, "span")
+				stp := rapid.SampledFrom([]float64{0.1, 1, 3, 8, 0.5}).Draw(t, "newstep")
+				if ch.Format != "float" {
+					span = float64(int(span))
+					if stp < 1 {
+						stp = 1
+					}
+					if ch.Format != "int32" && lo < 0 {
+						lo = -lo
+					}
+				}
+				steps = append(steps, step{Rebound: true, Min: lo, Max: lo + span, Stp: stp})
+				continue
+			}
 			s := step{Remote: rapid.Bool().Draw(t, "remote")}
-			if i > 0 && rapid.IntRange(0, 4).Draw(t, "repeat") == 0 {
+			if i > 0 && !steps[len(steps)-1].Rebound && rapid.IntRange(0, 4).Draw(t, "repeat") == 0 {
 				s.Repeat = true
-				s.Value = steps[i-1].Value
+				s.Value = steps[len(steps)-1].Value
 				if k := hx.JSONKind(s.Value); k == "array" || k == "object" {
 					repeatedComposite = true
 				}
@@ -172,6 +206,12 @@ func TestC12Prop(t *testing.T) {
 		if repeatedComposite {
 			classes = append(classes, "same-composite-twice")
 		}
+		for _, s := range steps {
+			if s.Rebound {
+				classes = append(classes, "bounds-redeclared")
+				break
+			}
+		}
 		if !readable(ch) {
 			classes = append(classes, "write-only")
 		}
@@ -180,12 +220,26 @@ func TestC12Prop(t *testing.T) {
 		})
 		stats.Count("ctor:"+ctor.Name, 1)
 		had := ch.Value != nil
+		dirty := false
 		for i, s := range steps {
+			if s.Rebound {
+				if err := rebound(typed, ch.Format, s); err != nil {
+					t.Fatalf("%s (format %s) step %d %v: %v", ctor.Name, ch.Format, i, s, err)
+				}
+				dirty = true
+				continue
+			}
 			if err := apply(ch, s, conn); err != nil {
 				t.Fatalf("%s (format %s) step %d %v: %v\nsteps: %v", ctor.Name, ch.Format, i, s, err, steps)
 			}
 			had = had || ch.Value != nil
-			if err := invariant(ch, typed, had); err != nil {
+			// bounds redeclared by the application bind the value from the next update that takes effect
+			// (a remote write to a characteristic without write permission is ignored and leaves the old value)
+			took := !s.Remote || writable(ch)
+			if took {
+				dirty = false
+			}
+			if err := invariant(ch, typed, had, !dirty); err != nil {
 				t.Fatalf("%s (format %s) after step %d %v: %v\nsteps: %v", ctor.Name, ch.Format, i, s, err, steps)
 			}
 		}
@@ -240,4 +294,30 @@ func TestC12Matrix(t *testing.T) {
 			}
 		}
 	}
+}
+
+
+// rebound declares new bounds through the typed setters (SetMinValue / SetMaxValue / SetStepValue).
+func rebound(typed interface{}, format string, s step) (err error) {
+	defer func() {
+		if r := recover(); r != nil {
+			err = fmt.Errorf("typed bound setter panicked: %v", r)
+		}
+	}()
+	rv := reflect.ValueOf(typed)
+	call := func(name string, v float64) {
+		m := rv.MethodByName(name)
+		if !m.IsValid() {
+			return
+		}
+		if m.Type().In(0).Kind() == reflect.Int {
+			m.Call([]reflect.Value{reflect.ValueOf(int(v))})
+		} else {
+			m.Call([]reflect.Value{reflect.ValueOf(v)})
+		}
+	}
+	call("SetMinValue", s.Min)
+	call("SetMaxValue", s.Max)
+	call("SetStepValue", s.Stp)
+	return nil
 }
